@@ -232,7 +232,8 @@ where
     o.put(|| "num_pages".into(), || count.to_string());
     o.put(|| "trailer".into(), || format!("size={} id={:?} info={}", file.trailer.size, file.trailer.id.iter().map(|s| bytes_s(s.as_bytes())).collect::<Vec<_>>(), file.trailer.info_dict.as_ref().map(|i| format!("{:?}", i.title.as_ref().map(|t| t.to_string_lossy()))).unwrap_or_default()));
     let mut idx: Vec<u32> = (0..count.min(nobj as u32)).collect();
-    for extra in [count.wrapping_sub(1), count, count.wrapping_add(1)] {
+    // (the last two indices of the 32-bit range: sums of subtree counts are compared against them)
+    for extra in [count.wrapping_sub(1), count, count.wrapping_add(1), u32::MAX - 1, u32::MAX] {
         if !idx.contains(&extra) {
             idx.push(extra);
         }
